@@ -42,6 +42,10 @@ structure XState where
   /-- the index created late (`lateindex`; extractor `outFetched`: 0, 1 or several keys per output):
       `idxBackfill` at creation, then `idxUpdateG` with every delivered event -/
   late    : Option (AMap (List Key)) := none
+  /-- case flag `hk`: the queue is held although the transformation has key / index atoms (the reverse index,
+      which the model does not have, recomputes a superset of inputs earlier): the events of a held block are
+      not compared, its contents are -/
+  loose   : Bool := false
 
 def evTok : Event → String
   | .add k v => "A~" ++ k ++ "~" ++ v
@@ -92,10 +96,10 @@ def stepX (x : XState) (toks : List String) : XState × String :=
     else ({ x with sec0 := srcSteps x.sec0 ops }, "ok")
   let change (prim : Bool) (op : SrcOp) : XState × String := changes prim [op]
   match toks with
-  | "case" :: _ :: _ :: t :: _ =>
+  | "case" :: _ :: _ :: t :: rest =>
     match parseTransform t with
     | none => ({}, "bad-op")
-    | some T => ({ T := T }, "ok")
+    | some T => ({ T := T, loose := rest.contains "hk" }, "ok")
   | ["p.set", o] =>
     match parseObj o with
     | none => (x, "bad-op")
@@ -128,7 +132,8 @@ def stepX (x : XState) (toks : List String) : XState × String :=
   | ["resume"] =>
     if !x.paused then (x, "bad-op") else
     let s' := x.order.foldl (fun s p => step x.T s (if p then .procP else .procS)) x.sys
-    ({ x with sys := s', paused := false, order := [] }, showStep x.held s')
+    ({ x with sys := s', paused := false, order := [] },
+      if x.loose then "e=* | " ++ showMap s'.col.outputs else showStep x.held s')
   | ["lookup", ns] =>
     if x.started then (x, "lookup " ++ showMap (idxLookup x.sys.col ns)) else (x, "lookup not-started")
   | _ => (x, "bad-op")
